@@ -352,6 +352,9 @@ func (pp *PairPos) Sanitize() error {
 			return fmt.Errorf("GPOS: invalid PairPos1 sets count (%d > %d)", exp, got)
 		}
 	} else if f2, isFormat2 := pp.Data.(PairPosData2); isFormat2 {
+		if f2.ClassDef1 == nil || f2.ClassDef2 == nil {
+			return errors.New("GPOS: invalid PairPos2: missing ClassDef table")
+		}
 		// the class counts may exceed the classes actually used by the class definitions :
 		// only reject class definitions refering to classes outside the record array
 		if exp, got := f2.ClassDef1.Extent(), int(f2.class1Count); exp > got {
@@ -365,6 +368,9 @@ func (pp *PairPos) Sanitize() error {
 }
 
 func (mp *MarkBasePos) Sanitize() error {
+	if mp.markCoverage == nil || mp.BaseCoverage == nil {
+		return errMissingCoverage
+	}
 	if exp, got := mp.markCoverage.Len(), len(mp.MarkArray.MarkRecords); exp != got {
 		return fmt.Errorf("GPOS: invalid MarkBasePos marks count (%d != %d)", exp, got)
 	}
@@ -379,6 +385,9 @@ func (mp *MarkBasePos) Sanitize() error {
 }
 
 func (mp *MarkLigPos) Sanitize() error {
+	if mp.MarkCoverage == nil || mp.LigatureCoverage == nil {
+		return errMissingCoverage
+	}
 	if exp, got := mp.MarkCoverage.Len(), len(mp.MarkArray.MarkAnchors); exp != got {
 		return fmt.Errorf("GPOS: invalid MarkBasePos marks count (%d != %d)", exp, got)
 	}
